@@ -6,7 +6,14 @@ attributes, every returned array / tuple / label / attribute / exception class, 
 with the trace of the extracted Coq state machine (ErrorModels/FileModel.v) on the same classified file.
 The property text is also evaluated directly: the harness knows what it recorded, so served error i must be
 recorded[start+i], EOFError must come exactly when the recorded errors run out, header values must be
-exposed, wrong probability / qubit count must be refused, malformed files must be rejected."""
+exposed, wrong probability / qubit count must be refused, malformed files must be rejected.
+
+Histories include the caller: the arrays returned by generate() belong to the consumer, who may keep them and
+look at them later, or change them in place (error ^= recovery).  Single-model histories and sessions (several
+models open in one process on the same file or on files sharing records, calls interleaved) are driven by such
+callers; served error i must equal recorded error start+i at call time in every such history, and an array the
+caller kept must still hold the recorded error / what the caller wrote at the end (model:
+ErrorModels/FileSession.v - models do not interfere, served arrays are fresh heap cells)."""
 import hashlib
 import itertools
 import json
@@ -19,7 +26,7 @@ from fractions import Fraction
 
 import numpy as np
 
-from harness.common import bitstr, exc_class, coq_list
+from harness.common import bitstr, exc_class, coq_list, COQ
 
 # own copy of the documented comment/blank pattern (the classification oracle is Python's re + json,
 # deliberately not qecsim's private compiled objects)
@@ -223,18 +230,18 @@ def calls_token(calls):
     return ';'.join(toks)
 
 
+def call_coq(c):
+    if c[0] == 'G':
+        return 'CGen %d %s' % (c[1], coq_p(c[2]))
+    if c[0] == 'D':
+        return 'CDist %s' % coq_p(c[1])
+    if c[0] == 'L':
+        return 'CLabel'
+    return 'CAttr %s' % coq_str(c[1])
+
+
 def calls_coq(calls):
-    items = []
-    for c in calls:
-        if c[0] == 'G':
-            items.append('CGen %d %s' % (c[1], coq_p(c[2])))
-        elif c[0] == 'D':
-            items.append('CDist %s' % coq_p(c[1]))
-        elif c[0] == 'L':
-            items.append('CLabel')
-        else:
-            items.append('CAttr %s' % coq_str(c[1]))
-    return coq_list(items)
+    return coq_list([call_coq(c) for c in calls])
 
 
 # ---------------------------------------------------------------------------------------------------
@@ -258,42 +265,179 @@ def header_of(lines):
     return h
 
 
-def run_impl(FileErrorModel, path, start, calls, lines, code_for):
-    """-> (head, outs, em): head = ('OK', [public instance attrs]) | ('ERR', class);
-    outs = list of ('B', bits) | ('T', values) | ('L', value) | ('A', value) | ('E', class) | ('?', text)"""
+def strip_tb(e):
+    """keep the exception object (its class is looked at) but not its frames: a traceback keeps the model instance and
+    with it the open file handle alive for as long as the outcome is stored"""
+    seen = 0
+    x = e
+    while x is not None and seen < 20:
+        x.__traceback__ = None
+        if isinstance(x, AttributeError) and getattr(x, 'obj', None) is not None:
+            x.obj = None              # AttributeError.obj is the model instance itself
+        x = x.__cause__ or x.__context__
+        seen += 1
+    return e
+
+
+def well_formed_array(r):
+    return isinstance(r, np.ndarray) and r.ndim == 1 and r.dtype.kind in 'iu' and set(np.unique(r)) <= {0, 1}
+
+
+def impl_open(FileErrorModel, path, start):
+    """-> (head, em): head = ('OK', [public instance attrs]) | ('ERR', class, exception)"""
     try:
         em = FileErrorModel(path, start)
     except Exception as e:  # noqa
-        return ('ERR', exc_class(e), e), [], None
-    head = ('OK', [k for k in vars(em) if not k.startswith('_')])
+        return ('ERR', exc_class(e), strip_tb(e)), None
+    return ('OK', [k for k in vars(em) if not k.startswith('_')]), em
+
+
+def impl_call(em, c, code_for, recorded_label, caller=None, tag=None):
+    """one call on an open model -> ('B', bits) | ('T', values) | ('L', value) | ('A', value) | ('E', class, exc) | ('?', text).
+    A served array is snapshotted (the 'B' outcome is what was served *at call time*) and then handed to the
+    caller object, which may keep the reference and/or change the array in place like any consumer of generate()."""
+    try:
+        if c[0] == 'G':
+            r = em.generate(code_for(c[1]), c[2])
+            if well_formed_array(r):
+                out = ('B', [int(x) for x in r])
+                if caller is not None:
+                    caller.served(tag, r, out[1])
+                return out
+            return ('?', 'generate returned %r' % (r,))
+        if c[0] == 'D':
+            r = em.probability_distribution(c[1])
+            return ('T', list(r)) if type(r) is tuple else ('?', 'distribution is %s' % type(r).__name__)
+        if c[0] == 'L':
+            r = em.label
+            if type(r) is not str:
+                return ('?', 'label is %s' % type(r).__name__)
+            if type(recorded_label) is str:
+                return ('L', r)
+            if r == str(recorded_label):      # Python's str() as oracle for non-string labels
+                return ('L', recorded_label)
+            return ('?', 'label %r' % r)
+        return ('A', getattr(em, c[1]))
+    except Exception as e:  # noqa
+        return ('E', exc_class(e), strip_tb(e))
+
+
+def run_impl(FileErrorModel, path, start, calls, lines, code_for, caller=None):
+    """-> (head, outs, em): head = ('OK', [public instance attrs]) | ('ERR', class);
+    outs = list of ('B', bits) | ('T', values) | ('L', value) | ('A', value) | ('E', class) | ('?', text)"""
+    head, em = impl_open(FileErrorModel, path, start)
+    if em is None:
+        return head, [], None
     recorded_label = header_of(lines).get('label', None)
-    outs = []
-    for c in calls:
-        try:
-            if c[0] == 'G':
-                r = em.generate(code_for(c[1]), c[2])
-                if isinstance(r, np.ndarray) and r.ndim == 1 and r.dtype.kind in 'iu' and set(np.unique(r)) <= {0, 1}:
-                    outs.append(('B', [int(x) for x in r]))
-                else:
-                    outs.append(('?', 'generate returned %r' % (r,)))
-            elif c[0] == 'D':
-                r = em.probability_distribution(c[1])
-                outs.append(('T', list(r)) if type(r) is tuple else ('?', 'distribution is %s' % type(r).__name__))
-            elif c[0] == 'L':
-                r = em.label
-                if type(r) is not str:
-                    outs.append(('?', 'label is %s' % type(r).__name__))
-                elif type(recorded_label) is str:
-                    outs.append(('L', r))
-                elif r == str(recorded_label):      # Python's str() as oracle for non-string labels
-                    outs.append(('L', recorded_label))
-                else:
-                    outs.append(('?', 'label %r' % r))
-            else:
-                outs.append(('A', getattr(em, c[1])))
-        except Exception as e:  # noqa
-            outs.append(('E', exc_class(e), e))
+    outs = [impl_call(em, c, code_for, recorded_label, caller, (0, i)) for i, c in enumerate(calls)]
     return head, outs, em
+
+
+# ---------------------------------------------------------------------------------------------------
+# the caller of generate(): what a consumer may do with the arrays it was handed
+SCRIBBLES = ['xor-ones', 'zero', 'ones', 'flip-one', 'xor-mask', 'xor-self-then-mask', 'reverse']
+POLICIES = ['drop', 'collect', 'scribble', 'scribble-keep', 'xor-then-compare']
+
+
+def scribble_expected(op, arg, bits):
+    """the value an array holding `bits` has after the in-place operation (independent list arithmetic)"""
+    if op == 'xor-ones':
+        return [1 - b for b in bits]
+    if op == 'zero':
+        return [0] * len(bits)
+    if op == 'ones':
+        return [1] * len(bits)
+    if op == 'flip-one':
+        return [b ^ 1 if i == arg % max(1, len(bits)) else b for i, b in enumerate(bits)]
+    if op == 'xor-mask':
+        return [b ^ arg[i % len(arg)] for i, b in enumerate(bits)]
+    if op == 'xor-self-then-mask':
+        return [arg[i % len(arg)] for i in range(len(bits))]
+    if op == 'reverse':
+        return list(reversed(bits))
+    raise ValueError(op)
+
+
+def scribble_apply(op, arg, r):
+    """the same operation done in place on the served numpy array (no rebinding: the caller's view of the object)"""
+    n = len(r)
+    if op == 'xor-ones':
+        r ^= 1
+    elif op == 'zero':
+        r[:] = 0
+    elif op == 'ones':
+        r.fill(1)
+    elif op == 'flip-one':
+        if n:
+            r[arg % n] ^= 1
+    elif op == 'xor-mask':
+        r ^= np.array([arg[i % len(arg)] for i in range(n)], dtype=r.dtype)
+    elif op == 'xor-self-then-mask':
+        r ^= r
+        r ^= np.array([arg[i % len(arg)] for i in range(n)], dtype=r.dtype)
+    elif op == 'reverse':
+        r[:] = r[::-1].copy()
+    else:
+        raise ValueError(op)
+
+
+class Caller:
+    """A consumer of generate() with a fixed behaviour (policy):
+    drop              - looks at the array (the snapshot) and forgets it;
+    collect           - keeps every served array and only uses them at the end (results collected before use);
+    scribble          - after looking, changes the array in place (error ^= recovery, fill, flip, ...) and forgets it;
+    scribble-keep     - same, and keeps the array: at the end it must hold what the caller wrote;
+    xor-then-compare  - XORs a mask into the array first and keeps it; only at the end compares with recorded ^ mask.
+    The scribble operations are drawn beforehand (a list of (op, arg) per served array, cycled), so that a replay
+    repeats them exactly."""
+
+    def __init__(self, policy, script):
+        self.policy = policy
+        self.script = script          # list of (op, arg)
+        self.k = 0
+        self.kept = []                # (tag, array, op, arg, snapshot bits)
+        self.readonly = 0
+
+    def served(self, tag, r, bits):
+        if self.policy == 'drop':
+            return
+        op, arg = (None, None)
+        if self.policy != 'collect':
+            op, arg = self.script[self.k % len(self.script)]
+            if self.policy == 'xor-then-compare' and op not in ('xor-mask', 'xor-ones', 'flip-one', 'reverse'):
+                op, arg = 'xor-ones', None        # only operations whose result still depends on what was served
+            self.k += 1
+            try:
+                scribble_apply(op, arg, r)
+            except ValueError:        # a read-only array cannot be corrupted by its consumer: nothing to check
+                self.readonly += 1
+                return
+        if self.policy != 'scribble':
+            self.kept.append((tag, r, op, arg, bits))
+
+    def final(self):
+        """-> list of (tag, op, arg, bits served at call time, bits held now)"""
+        out = []
+        for tag, r, op, arg, bits in self.kept:
+            now = [int(x) for x in r] if well_formed_array(r) or (isinstance(r, np.ndarray) and r.ndim == 1) else None
+            out.append((tag, op, arg, bits, now))
+        return out
+
+
+def make_script(rng, n=12):
+    out = []
+    for _ in range(n):
+        op = rng.choice(SCRIBBLES)
+        if op == 'flip-one':
+            arg = rng.randrange(64)
+        elif op in ('xor-mask', 'xor-self-then-mask'):
+            arg = [rng.randint(0, 1) for _ in range(rng.randint(1, 7))]
+            if not any(arg):
+                arg[0] = 1
+        else:
+            arg = None
+        out.append((op, arg))
+    return out
 
 
 def trace_str(head, outs):
@@ -322,6 +466,10 @@ def trace_coq(head, outs):
         h = 'Ok %s' % coq_list([coq_str(k) for k in head[1]])
     else:
         h = 'Err %s' % COQ_EXN[head[1]]
+    return '(%s, %s)' % (h, outs_coq(outs))
+
+
+def outs_coq(outs):
     items = []
     for o in outs:
         if o[0] == 'B':
@@ -336,7 +484,7 @@ def trace_coq(head, outs):
             items.append('OErr %s' % COQ_EXN[o[1]])
         else:
             raise ValueError('no Coq form')
-    return '(%s, %s)' % (h, coq_list(items))
+    return coq_list(items)
 
 
 # ---------------------------------------------------------------------------------------------------
@@ -474,12 +622,7 @@ def wrong_ps(p0f):
     return [c for c in cands if not (isinstance(c, (int, float)) and c == p0f)]
 
 
-def make_healthy(rng, cyc, big=False):
-    """a well-formed file with a random layout; returns the scenario and the record of what was written"""
-    n0 = rng.randint(1, 40) if not big else rng.choice([41, 64, 100, 333, 1000])
-    m = rng.randint(1, 40) if rng.random() < 0.97 else rng.randint(41, 120)
-    if rng.random() < 0.25:
-        m = rng.randint(1, 4)
+def random_errors(rng, n0, m):
     errors = []
     for _ in range(m):
         k = rng.randrange(4)
@@ -491,6 +634,20 @@ def make_healthy(rng, cyc, big=False):
         else:
             e = [rng.randint(0, 1) for _ in range(2 * n0)]
         errors.append(e)
+    return errors
+
+
+def make_file(rng, cyc, big=False, n0=None, errors=None, plain_body=False):
+    """a well-formed file with a random layout; returns (text, record of what was written).
+    n0/errors given: the recorded errors are the caller's (sessions: files sharing records)."""
+    if errors is None:
+        n0 = rng.randint(1, 40) if not big else rng.choice([41, 64, 100, 333, 1000])
+        m = rng.randint(1, 40) if rng.random() < 0.97 else rng.randint(41, 120)
+        if rng.random() < 0.25:
+            m = rng.randint(1, 4)
+        errors = random_errors(rng, n0, m)
+    else:
+        m = len(errors)
     pv = rng.choice(PROBS)
     if rng.random() < 0.08:
         pv = rng.choice([True, False, float('inf'), 1e400])
@@ -517,17 +674,25 @@ def make_healthy(rng, cyc, big=False):
         hdr_texts.append('{"%s": "shadowed", "%s": %s}' % (name, name, json.dumps(val)))
     density = rng.choice([0.0, 0.1, 0.3, 0.5])
     hl, _ = interleave(rng, hdr_texts, density)
-    bl, nbody_comments = interleave(rng, [body_text(rng, e) for e in errors], density)
+    # plain_body: every record written the same way, so that equal errors are equal *lines* (as a writer produces them)
+    bl, nbody_comments = interleave(rng, [body_text(rng, e, 4 if plain_body else None) for e in errors], density)
     # comment/blank lines strictly between the first and the last recorded error
     real = [i for i, l in enumerate(bl) if not RE_SKIP.match(l + '\n')]
     inside = (real[-1] - real[0] + 1 - len(real)) if real else 0
     text = assemble(rng, hl, bl)
-    r = rng.random()
-    start = rng.randint(0, m + 2) if r < 0.85 else (0 if r < 0.93 else rng.choice([m, m - 1, max(0, m - 2)]))
-    if rng.random() < 0.03:
-        start = bool(min(start, 1))
     rec = {'items': items, 'errors': errors, 'n0': n0, 'm': m, 'body_comments': inside}
-    p0f = fnum(pv)
+    return text, rec
+
+
+def make_calls(rng, rec, start=None):
+    """a start offset and a call sequence (running past the end most of the time) for a healthy file"""
+    items, n0, m = rec['items'], rec['n0'], rec['m']
+    if start is None:
+        r = rng.random()
+        start = rng.randint(0, m + 2) if r < 0.85 else (0 if r < 0.93 else rng.choice([m, m - 1, max(0, m - 2)]))
+        if rng.random() < 0.03:
+            start = bool(min(start, 1))
+    p0f = fnum(items[0][1])
     calls = []
     s = int(start)
     remaining = max(0, m - s)
@@ -550,6 +715,13 @@ def make_healthy(rng, cyc, big=False):
     calls.append(('D', rng.choice(right_ps(p0f))))
     for k in extras:
         calls.append(('A', k))
+    return start, calls
+
+
+def make_healthy(rng, cyc, big=False):
+    """a well-formed file with a random layout; returns the scenario and the record of what was written"""
+    text, rec = make_file(rng, cyc, big)
+    start, calls = make_calls(rng, rec)
     return {'text': text, 'start': start, 'calls': calls}, rec
 
 
@@ -790,15 +962,168 @@ def enc_arg(x):
 
 
 def replay_dict(scn, rec=None):
-    d = {'file_text': scn['text'], 'start': enc_arg(scn['start']),
-         'calls': [[c[0]] + [enc_arg(a) for a in c[1:]] for c in scn['calls']]}
+    d = {'file_text': scn['text'], 'start': enc_arg(scn['start']), 'calls': enc_calls(scn['calls'])}
     if rec:
         d['n_qubits'] = rec.get('n0')
         d['recorded_errors'] = [bitstr(e) for e in rec.get('errors', [])][:60]
         if rec.get('defect'):
             d['defect'] = rec['defect']
             d['defect_body_index'] = rec.get('bad_index')
+    if scn.get('caller'):
+        d['caller'] = scn['caller']
+    if scn.get('session'):
+        d['instance'] = scn['instance']
+        d['session'] = scn['session']
     return d
+
+
+def enc_calls(calls):
+    return [[c[0]] + [enc_arg(a) for a in c[1:]] for c in calls]
+
+
+def check_kept(ctx, scn, rec, finals, inst=0):
+    """the arrays the caller kept, looked at after the whole history: an array served for recorded error k and then
+    left alone / changed by the caller to f(error k) must hold exactly that, whatever was served afterwards."""
+    ehead, exp = expected_healthy(rec, scn['start'], scn['calls'])
+    if ehead[0] != 'OK':
+        return
+    rep = replay_dict(scn, rec)
+    for (j, i), op, arg, bits, now in finals:
+        if j != inst or i >= len(exp) or exp[i][0] != 'bits':
+            continue
+        e = exp[i][1]
+        want = scribble_expected(op, arg, e) if op else e
+        if now != want:
+            ctx.violation('served-array-changed',
+                          'the array served by call %d (recorded error %d)%s does not hold %s at the end of the history'
+                          % (i, exp[i][2], ' and then changed in place by the caller (%s)' % op if op else ' and kept by the caller',
+                             'what the caller wrote' if op else 'the recorded error'),
+                          dict(rep, call_index=i, served_at_call_time=bitstr(bits), holds_now=bitstr(now) if now is not None else None,
+                               want=bitstr(want), recorded=bitstr(e), caller_op=[op, arg]))
+
+
+# ---------------------------------------------------------------------------------------------------
+# sessions: several models open in one process, on one file or on files sharing records, calls interleaved,
+# a caller that keeps / changes the served arrays
+def resize_error(e, n0):
+    """the same low-weight pattern on another qubit count: X and Z halves padded with zeros / truncated"""
+    h = len(e) // 2
+    x, z = e[:h], e[h:]
+    return (x + [0] * n0)[:n0] + (z + [0] * n0)[:n0]
+
+
+def make_session(rng, cyc, big=False):
+    n0 = rng.choice([1, 2, 3, 5, 5, 7, rng.randint(1, 12)]) if not big else rng.choice([16, 40, 100])
+    pool = [[0] * (2 * n0)]
+    for _ in range(rng.randint(0, 3)):
+        e = [0] * (2 * n0)
+        for _ in range(rng.choice([1, 1, 2, n0])):
+            e[rng.randrange(2 * n0)] = 1
+        pool.append(e)
+    nfiles = rng.choice([1, 1, 2, 2, 3])
+    files = []
+    for _ in range(nfiles):
+        nk = n0 if rng.random() < 0.8 else max(1, n0 + rng.choice([-1, 1, 2, 4]))
+        m = rng.randint(2, 20 if not big else 60)
+        errors = [resize_error(rng.choice(pool), nk) for _ in range(m)]
+        files.append(make_file(rng, cyc, n0=nk, errors=errors, plain_body=rng.random() < 0.7))
+    insts = []
+    for _ in range(rng.randint(1, 4)):
+        k = rng.randrange(nfiles)
+        st = None if rng.random() < 0.5 else rng.choice([0, 0, 1, 2])
+        start, calls = make_calls(rng, files[k][1], st)
+        insts.append({'file': k, 'start': start, 'calls': calls})
+    # interleaving of the instances' histories (open, call 0, call 1, ...)
+    seqs = [[('open', j)] + [('call', j, i) for i in range(len(x['calls']))] for j, x in enumerate(insts)]
+    mode = rng.choice(['sequential', 'random', 'random', 'round-robin', 'open-all-first'])
+    ops = []
+    if mode == 'sequential':            # a fresh model after the whole history of the previous one
+        for q in seqs:
+            ops += q
+    else:
+        if mode == 'open-all-first':
+            ops = [q.pop(0) for q in seqs]
+        live = [q for q in seqs if q]
+        k = 0
+        while live:
+            q = live[k % len(live)] if mode == 'round-robin' else rng.choice(live)
+            for _ in range(1 if mode == 'round-robin' else rng.randint(1, 3)):
+                if q:
+                    ops.append(q.pop(0))
+            k += 1
+            live = [q for q in live if q]
+    policy = rng.choice(['drop', 'collect', 'scribble', 'scribble', 'scribble-keep', 'scribble-keep', 'xor-then-compare',
+                         'xor-then-compare'])
+    return {'files': files, 'insts': insts, 'ops': ops, 'mode': mode, 'policy': policy, 'script': make_script(rng)}
+
+
+def session_coq(ses, lines, heads, outs, finals):
+    """the session as a term of ErrorModels/FileSession.v: (specs, ops, expected outcomes per model, expected heap).
+    Every served array is a heap cell (in serving order); the caller's in-place operation becomes `Scribble k v` with v
+    computed from the *recorded* error. Only for callers that keep every array (the heap is then observable)."""
+    if ses['policy'] not in ('collect', 'scribble-keep', 'xor-then-compare') or any(h is None or h[0] != 'OK' for h in heads):
+        return None
+    specs, exps = [], []
+    for x in ses['insts']:
+        if not isinstance(x['start'], (bool, int)) or abs(int(x['start'])) > 1000:
+            return None
+        specs.append('(%s, StInt %s)' % (file_coq(lines[x['file']]), coq_z(int(x['start']))))
+        exps.append(expected_healthy(ses['files'][x['file']][1], x['start'], x['calls'])[1])
+    caller = Caller(ses['policy'], ses['script'])     # only to reproduce the sequence of operations
+    ops, k = [], 0
+    for o in ses['ops']:
+        if o[0] != 'call':
+            continue
+        j, i = o[1], o[2]
+        ops.append('Call %d (%s)' % (j, call_coq(ses['insts'][j]['calls'][i])))
+        if exps[j][i][0] == 'bits':
+            e = exps[j][i][1]
+            if ses['policy'] != 'collect':
+                op, arg = caller.script[caller.k % len(caller.script)]
+                if ses['policy'] == 'xor-then-compare' and op not in ('xor-mask', 'xor-ones', 'flip-one', 'reverse'):
+                    op, arg = 'xor-ones', None
+                caller.k += 1
+                ops.append('Scribble %d %s' % (k, coq_bits(scribble_expected(op, arg, e))))
+            k += 1
+    heap = [now for _, _, _, _, now in finals]
+    if any(h is None for h in heap):
+        return None
+    return '(%s, %s, %s, %s)' % (coq_list(specs), coq_list(ops), coq_list([outs_coq(o) for o in outs]),
+                                 coq_list([coq_bits(h) for h in heap]))
+
+
+def session_replay(ses):
+    return {'files': [t for t, _ in ses['files']],
+            'instances': [{'file': x['file'], 'start': enc_arg(x['start']), 'calls': enc_calls(x['calls'])} for x in ses['insts']],
+            'ops': [list(o) for o in ses['ops']], 'interleaving': ses['mode'],
+            'caller': {'policy': ses['policy'], 'script': [list(x) for x in ses['script']]}}
+
+
+def run_session(FileErrorModel, tmp, sid, files_text, insts, ops, policy, script, code_for):
+    """-> (lines per file, head per instance, outs per instance, finals)"""
+    paths, lines = [], []
+    for k, text in enumerate(files_text):
+        path = os.path.join(tmp, 's%06d_%d.jsonl' % (sid, k))
+        with open(path, 'w', newline='', encoding='utf-8') as fh:
+            fh.write(text)
+        paths.append(path)
+        lines.append(classify(path))
+    caller = Caller(policy, script)
+    heads, ems, outs = [None] * len(insts), [None] * len(insts), [[] for _ in insts]
+    labels = [header_of(lines[x['file']]).get('label', None) for x in insts]
+    try:
+        for op in ops:
+            j = op[1]
+            if op[0] == 'open':
+                heads[j], ems[j] = impl_open(FileErrorModel, paths[insts[j]['file']], insts[j]['start'])
+            elif ems[j] is not None:
+                outs[j].append(impl_call(ems[j], insts[j]['calls'][op[2]], code_for, labels[j], caller, (j, op[2])))
+        finals = caller.final()
+    finally:
+        del ems
+        for path in paths:
+            os.remove(path)
+    return lines, heads, outs, finals, caller
 
 
 # ---------------------------------------------------------------------------------------------------
@@ -810,8 +1135,16 @@ def run(ctx):
     ctx.rule = ('generated error files: 1-40 (some to 120) errors, n in 1..40 (some to 1000), every header permutation x '
                 'grouping for <=4 keys (random beyond), comment/blank lines at random positions, CRLF, start in 0..m+2, call '
                 'sequences past EOF with wrong-p / wrong-n / distribution / label / attribute calls interleaved; one-defect '
-                'malformed stream (%d classes); outside-domain stream counted separately. nontrivial = distinct file with '
-                '>= 3 errors, >= 1 comment/blank line inside the body and start > 0' % len(DEFECTS))
+                'malformed stream (%d classes); outside-domain stream counted separately. Caller behaviour is part of the '
+                'history: every third healthy file and every session is driven by a caller that keeps the served arrays '
+                '(collected before use) and/or changes them in place after looking (xor, fill, flip, reverse) or before '
+                'comparing (xor-then-compare); sessions = 1-3 files built from a pool of <= 4 low-weight errors (records repeat '
+                'within and across files, also resized to other qubit counts), 1-4 models open at once on them with their own '
+                'start, histories interleaved (sequential / round-robin / random / all opened first); every served array is '
+                'checked at call time against the recorded error and the model, and every kept array again at the end of the '
+                'history. nontrivial = distinct file with >= 3 errors, >= 1 comment/blank line inside the body and start > 0; '
+                'for session instances: >= 3 errors, a record value served more than once in the session and a caller that '
+                'keeps or changes arrays' % len(DEFECTS))
     ctx.props_obligations()
     ctx.trusted += [
         'classification of raw lines (comment/blank regex ^\\s*(//.*)?$, json.loads, dict vs non-dict, text-mode line splitting) '
@@ -837,29 +1170,39 @@ def run(ctx):
         req, cases = [], []
         counter = [0]
 
-        def do(scn, rec, kind, checker):
+        def record(scn, rec, kind, checker, lines, head, outs, nt=None):
             counter[0] += 1
-            path = os.path.join(tmp, 'f%06d.jsonl' % counter[0])
-            if scn['text'] is not None:
-                with open(path, 'w', newline='', encoding='utf-8') as fh:
-                    fh.write(scn['text'])
-            lines = classify(path)
-            head, outs, em = run_impl(FileErrorModel, path, scn['start'], scn['calls'], lines, code_for)
-            del em
-            if scn['text'] is not None:
-                os.remove(path)
             if checker:
                 checker(ctx, scn, rec, head, outs)
             req.append('scn %s %s %s %s' % (file_token(lines), start_token(scn['start']), clash_tok, calls_token(scn['calls'])))
             cases.append([scn, rec, kind, lines, head, outs])
-            nt = bool(rec and not rec.get('defect') and rec['m'] >= 3 and rec.get('body_comments', 0) >= 1
-                      and int(scn['start']) > 0)
+            if nt is None:
+                nt = bool(rec and not rec.get('defect') and rec['m'] >= 3 and rec.get('body_comments', 0) >= 1
+                          and int(scn['start']) > 0)
             sample = None
             if counter[0] % 400 == 3:
                 sample = {'kind': kind, 'file_text': (scn['text'] or '')[:300], 'start': enc_arg(scn['start']),
                           'calls': len(scn['calls']), 'trace': trace_str(head, outs)[:200]}
-            ctx.count(hashlib.sha1(repr((scn['text'], enc_arg(scn['start']))).encode('utf-8', 'surrogatepass')).hexdigest()[:20],
+            ctx.count(hashlib.sha1(repr((scn['text'], enc_arg(scn['start']), scn.get('session_id'), scn.get('instance'),
+                                         scn.get('caller'))).encode('utf-8', 'surrogatepass')).hexdigest()[:20],
                       nt, kind, sample)
+
+        def do(scn, rec, kind, checker):
+            path = os.path.join(tmp, 'f%06d.jsonl' % (counter[0] + 1))
+            if scn['text'] is not None:
+                with open(path, 'w', newline='', encoding='utf-8') as fh:
+                    fh.write(scn['text'])
+            lines = classify(path)
+            caller = Caller(scn['caller']['policy'], [tuple(x) for x in scn['caller']['script']]) if scn.get('caller') else None
+            head, outs, em = run_impl(FileErrorModel, path, scn['start'], scn['calls'], lines, code_for, caller)
+            del em
+            if scn['text'] is not None:
+                os.remove(path)
+            record(scn, rec, kind, checker, lines, head, outs)
+            if caller is not None:
+                check_kept(ctx, scn, rec, caller.final())
+                ctx.hist['caller/' + caller.policy] += 1
+                ctx.hist['served-array-readonly'] += caller.readonly
             return head, outs
 
         # ---- 1. healthy files ---------------------------------------------------------------------
@@ -867,6 +1210,8 @@ def run(ctx):
         n_healthy = nfiles - n_bad * len(DEFECTS)
         for i in range(n_healthy):
             scn, rec = make_healthy(rng, cyc, big=(i % 97 == 96))
+            if i % 3 == 1:      # a caller that keeps / changes the served arrays instead of only looking at them
+                scn['caller'] = {'policy': rng.choice(POLICIES[1:]), 'script': [list(x) for x in make_script(rng, 5)]}
             do(scn, rec, 'healthy', check_healthy)
         ctx.extra['header_layouts_covered'] = {str(k): len(v) for k, v in cyc.seen.items()}
         # ---- 2. malformed, one defect each ----------------------------------------------------
@@ -917,6 +1262,40 @@ def run(ctx):
             if h[0] == 'OK' and not name.isidentifier():
                 ctx.violation('malformed-accepted:attr-name-not-identifier',
                               'extra header key %r is not a valid Python attribute name but is accepted' % name, replay_dict(scn))
+
+        # ---- 6. sessions: several models in one process (same file / files sharing records), interleaved histories,
+        #         callers that collect the served arrays before use or change them in place -----------------------
+        n_sessions = ctx.pick(250, 2500)
+        shared = 0
+        sess_terms = []
+        for sid in range(n_sessions):
+            ses = make_session(rng, cyc, big=(sid % 41 == 40))
+            srep = session_replay(ses)
+            lines, heads, outs, finals, caller = run_session(
+                FileErrorModel, tmp, sid, srep['files'], ses['insts'], ses['ops'], ses['policy'], ses['script'], code_for)
+            ctx.hist['interleaving/' + ses['mode']] += 1
+            ctx.hist['caller/' + ses['policy']] += 1
+            ctx.hist['served-array-readonly'] += caller.readonly
+            # a record value served more than once in the session (to any instance) after the caller touched an array
+            served = [bitstr(o[1]) for os_ in outs for o in os_ if o[0] == 'B']
+            rep_served = len(served) - len(set(served))
+            shared += bool(rep_served)
+            if len(sess_terms) < 14 and sid % 3 == 0 and sum(len(t) for t in srep['files']) < 1200 and len(ses['ops']) <= 60:
+                try:
+                    t = session_coq(ses, lines, heads, outs, finals)
+                except (ValueError, KeyError):
+                    t = None
+                if t:
+                    sess_terms.append(t)
+            for j, x in enumerate(ses['insts']):
+                text, rec = ses['files'][x['file']]
+                scn = {'text': text, 'start': x['start'], 'calls': x['calls'], 'session': srep, 'instance': j, 'session_id': sid}
+                if heads[j] is None:
+                    continue
+                record(scn, rec, 'session/' + ses['policy'], check_healthy, lines[x['file']], heads[j], outs[j],
+                       nt=bool(rep_served and ses['policy'] != 'drop' and rec['m'] >= 3))
+                check_kept(ctx, scn, rec, finals, j)
+        ctx.extra['sessions'] = {'n': n_sessions, 'with_a_record_value_served_more_than_once': shared}
 
         # ---- correspondence with the extracted model -------------------------------------------
         out = ctx.model('c18', req)
@@ -991,6 +1370,27 @@ def run(ctx):
                 % (coq_list([coq_str(k) for k in clash]), ';\n  '.join(items), ';\n  '.join(exps)))
         ctx.kernel_cases('sample', text)
         ctx.extra['kernel_cases'] = len(items)
+        # sessions in the kernel: models + caller's heap (ErrorModels/FileSession.v), when that library is built
+        if sess_terms and os.path.exists(os.path.join(COQ, 'theories', 'ErrorModels', 'FileSession.vo')):
+            text = ('From Coq Require Import List Bool Arith NArith ZArith.\nFrom QV Require Import Core.Bits Core.Pack '
+                    'ErrorModels.FileModel ErrorModels.FileSession.\nImport ListNotations.\n'
+                    'Definition clash : list (list N) := %s.\n'
+                    'Definition is_ood (o : outcome) := match o with OOod => true | _ => false end.\n'
+                    'Definition sess_ok (c : list (option (list line) * start_arg) * list op * list (list outcome) * list bsf) : Prop :=\n'
+                    '  let \'(specs, ops, eouts, eheap) := c in\n'
+                    '  match ok_states (opened clash specs) with\n'
+                    '  | Some ss => let (evs, w) := wrun reader pull clash (MkWorld ss []) ops in\n'
+                    '      existsb is_ood (map snd evs) = true \\/\n'
+                    '      (map (fun j => outs_of j evs) (seq 0 (length specs)) = eouts /\\ heap w = eheap)\n'
+                    '  | None => False end.\n'
+                    'Definition sessions : list (list (option (list line) * start_arg) * list op * list (list outcome) * list bsf) :=\n [%s].\n'
+                    'Fixpoint all_ok (l : list (list (option (list line) * start_arg) * list op * list (list outcome) * list bsf)) '
+                    ': Prop :=\n  match l with [] => True | c :: r => sess_ok c /\\ all_ok r end.\n'
+                    'Example sess_corr : all_ok sessions.\n'
+                    'Proof. vm_compute. repeat split; ((right; split; reflexivity) || (left; reflexivity)). Qed.\n'
+                    % (coq_list([coq_str(k) for k in clash]), ';\n  '.join(sess_terms)))
+            ctx.kernel_cases('sessions', text, timeout=300)
+            ctx.extra['kernel_sessions'] = len(sess_terms)
     finally:
         shutil.rmtree(tmp, ignore_errors=True)
 
@@ -1007,9 +1407,47 @@ def replay(path):
                 _replay_one(FileErrorModel, mm['input'])
                 print('  model:', mm.get('model'))
         return 0
-    if 'file_text' in r:
+    if 'session' in r:
+        _replay_session(FileErrorModel, r)
+    elif 'file_text' in r:
         _replay_one(FileErrorModel, r)
     return 0
+
+
+def _dec_calls(calls, env):
+    return [tuple([c[0]] + [eval(a, env) for a in c[1:]]) for c in calls]
+
+
+def _replay_session(FileErrorModel, r):
+    """re-run a whole session (all files, all instances, the interleaving and the caller's in-place operations)"""
+    env = {'nan': float('nan'), 'inf': INF, '__builtins__': {}}
+    ses = r['session']
+    insts = [{'file': x['file'], 'start': eval(x['start'], env), 'calls': _dec_calls(x['calls'], env)} for x in ses['instances']]
+    script = [(op, arg) for op, arg in ses['caller']['script']]
+    for k, t in enumerate(ses['files']):
+        print('--- file %d ---' % k)
+        print(t)
+    print('--- instances: %s' % ', '.join('#%d = FileErrorModel(file %d, start=%r)' % (j, x['file'], x['start'])
+                                          for j, x in enumerate(insts)))
+    print('--- caller policy: %s; interleaving: %s; reported instance: #%s' % (ses['caller']['policy'], ses.get('interleaving'),
+                                                                              r.get('instance')))
+    tmp = tempfile.mkdtemp(prefix='verif_c18_replay_')
+    try:
+        lines, heads, outs, finals, caller = run_session(FileErrorModel, tmp, 0, ses['files'], insts,
+                                                         [tuple(o) for o in ses['ops']], ses['caller']['policy'], script, StubCode)
+        pos = [0] * len(insts)
+        for o in ses['ops']:
+            j = o[1]
+            if o[0] == 'open':
+                print('open #%d -> %s' % (j, 'ok' if heads[j][0] == 'OK' else 'raised ' + heads[j][1]))
+            elif heads[j][0] == 'OK':
+                print('#%d call %d %r -> %s' % (j, o[2], insts[j]['calls'][o[2]], describe(outs[j][pos[j]])))
+                pos[j] += 1
+        for (j, i), op, arg, bits, now in finals:
+            print('kept: #%d call %d served %s, caller did %s, holds now %s' % (j, i, bitstr(bits), op or 'nothing',
+                                                                              bitstr(now) if now is not None else now))
+    finally:
+        shutil.rmtree(tmp, ignore_errors=True)
 
 
 def _replay_one(FileErrorModel, r):
@@ -1030,11 +1468,17 @@ def _replay_one(FileErrorModel, r):
             print('raised %s: %s' % (type(e).__name__, e))
             return
         print('constructed; label=%r public attrs=%r' % (em.label, [k for k in vars(em) if not k.startswith('_')]))
+        caller = Caller(r['caller']['policy'], [tuple(x) for x in r['caller']['script']]) if r.get('caller') else None
+        if caller:
+            print('caller policy: %s' % caller.policy)
         for i, c in enumerate(r['calls']):
             args = [eval(a, env) for a in c[1:]]
             try:
                 if c[0] == 'G':
-                    res = bitstr(em.generate(StubCode(args[0]), args[1]))
+                    arr = em.generate(StubCode(args[0]), args[1])
+                    res = bitstr(arr)
+                    if caller and well_formed_array(arr):
+                        caller.served((0, i), arr, [int(x) for x in arr])
                 elif c[0] == 'D':
                     res = em.probability_distribution(args[0])
                 elif c[0] == 'L':
@@ -1044,5 +1488,8 @@ def _replay_one(FileErrorModel, r):
                 print('call %d %s%r -> %r' % (i, c[0], tuple(args), res))
             except Exception as e:  # noqa
                 print('call %d %s%r -> raised %s: %s' % (i, c[0], tuple(args), type(e).__name__, e))
+        for (j, i), op, arg, bits, now in (caller.final() if caller else []):
+            print('kept: call %d served %s, caller did %s, holds now %s' % (i, bitstr(bits), op or 'nothing',
+                                                                          bitstr(now) if now is not None else now))
     finally:
         shutil.rmtree(tmp, ignore_errors=True)
